@@ -98,7 +98,7 @@ def proj_lo_pred(e):
 HI_KEYS = {
     "wake_begin": ["w"], "wake_end": ["w"], "wdrop_begin": ["w"], "wdrop_end": ["w"], "wcreate": ["w"],
     "handler": ["w", "deleted"], "pollwaker": [], "pollcheck": ["notified"], "poll_begin": [], "poll_end": [],
-    "joined": [], "quiesce": [], "send_begin": ["v"], "send_end": ["v", "res"], "isclosed": ["res"],
+    "joined": [], "quiesce": [], "send_begin": ["v"], "send_end": ["v", "res"], "isclosed": ["res"], "isclosed_begin": [],
     "guard_drop_begin": [], "guard_drop_end": [], "fwd": ["v"], "psend_begin": ["v"], "psend_end": ["v"],
     "pdrop_begin": [], "pdrop_end": [], "recv_begin": [], "recv_end": ["has", "v"], "lsend_begin": ["v"],
     "lsend_end": ["v", "res"], "cancelq": ["res"], "wreturn": [], "wpanic": ["msg"], "precv": ["v"],
